@@ -76,7 +76,7 @@ def c12(chk):
                     if r["ev"] in ("rpc.drop", "app.drop", "srv.drop") else None)
     sample_events(chk, summ, ("rpc.drop", "obs.rpc_abandon", "app.drop"), n=4)
     # hundreds of calls abandoned under running handlers on one connection within seconds, ordinary calls in between
-    rpc_runs(chk, "storm", mode="storm", faults=0, calls=420, seed=chk.seed + 17, runs=2 if quick(chk) else 24, jobs=6, files=2)
+    rpc_runs(chk, "storm", mode="storm", faults=0, calls=720, seed=chk.seed + 17, runs=2 if quick(chk) else 24, jobs=6, files=2)
     # abandonment by timing out: the caller's own deadline (header / configured default) ends the call;
     # other calls on the connection, in flight or later, are not disturbed
     st = rpc_runs(chk, "timedout", mode="timeouts", faults=0, calls=60, seed=chk.seed + 5, runs=max(4, runs // 3),
